@@ -1,8 +1,10 @@
 import PyElf.Driver.Json
+import PyElf.Core.Bundles
 import PyElf.Gen.Tables
 import PyElf.Gen.Structs
 import PyElf.Gen.Pure
 import PyElf.Driver.C16
+import PyElf.Driver.Tie
 open Lean
 namespace PyElf
 
@@ -15,9 +17,6 @@ def genEnumDecode (tid : String) (v : Int) : Option String :=
   | some (_, t, _) => decodeIn t v
   | none => none
 
-def lookupCon (b : List (String × Con)) (name : String) : Option Con :=
-  (b.find? (·.1 == name)).map (·.2)
-
 def handleCon (req : Json) : Except String Json := do
   -- {"k":"con","bundle":"elf"|"dwarf"|"ehabi","cfg":[...],"name":..., "hex":..., "pos":n}
   let kind ← jStr req "bundle"
@@ -25,19 +24,25 @@ def handleCon (req : Json) : Except String Json := do
   let name ← jStr req "name"
   let data ← jHex req "hex"
   let pos ← jNat req "pos"
-  let bundle : Option (List (String × Con)) ←
+  let (con, forms) : Option Con × (String → Option Con) ←
     match kind, cfg with
     | "elf", [Json.bool le, cls, Json.str mc, Json.bool sol, Json.bool core] => do
         let cls ← jNatOf cls
-        pure ((Gen.elfBundles.find? (·.1 == (le, cls, mc, sol, core))).map (·.2))
+        match Gen.elfBundles.find? (·.1 == (⟨le, cls, mc, sol, core⟩ : ElfCfg)) with
+        | some (_, b) => pure (b.get name, fun _ => none)
+        | none => throw "no such elf bundle"
     | "dwarf", [Json.bool le, fmt, asz, ver] => do
         let fmt ← jNatOf fmt; let asz ← jNatOf asz; let ver ← jNatOf ver
-        pure ((Gen.dwarfBundles.find? (·.1 == (le, fmt, asz, ver))).map (·.2))
-    | "ehabi", [Json.bool le] => pure ((Gen.ehabiBundles.find? (·.1 == le)).map (·.2))
+        match Gen.dwarfBundles.find? (·.1 == (⟨le, fmt, asz, ver⟩ : DwarfCfg)) with
+        | some (_, b) => pure (b.get name, b.form)
+        | none => throw "no such dwarf bundle"
+    | "ehabi", [Json.bool le] =>
+        match Gen.ehabiBundles.find? (·.1 == le) with
+        | some (_, b) => pure (b.get name, fun _ => none)
+        | none => throw "no such ehabi bundle"
     | _, _ => throw "bad cfg"
-  let some b := bundle | throw "no such bundle"
-  let some c := lookupCon b name | throw s!"no struct {name}"
-  let env : Env := { enumDecode := genEnumDecode, forms := fun f => lookupCon b ("Dwarf_dw_form:" ++ f) }
+  let some c := con | throw s!"no struct {name}"
+  let env : Env := { enumDecode := genEnumDecode, forms := forms }
   let r := structParse env c data pos
   return Json.mkObj [("model", resJson (fun (v, p) => Json.mkObj [("v", v.toJson), ("pos", jN p)]) r)]
 
@@ -46,6 +51,7 @@ def handle (req : Json) : Except String Json := do
   match p with
   | "con" => handleCon req
   | "C16" => Driver.C16.handle req
+  | "tie" => Driver.Tie.handle req
   | _ => throw s!"unknown property {p}"
 
 end PyElf
